@@ -253,7 +253,7 @@ Ltac sem_leaf :=
   | |- _ => reflexivity
   end.
 Ltac sem_auto tac :=
-  match goal with
+  multimatch goal with
   | |- True => exact I
   | |- _ /\ _ => split; sem_auto tac
   | |- _ \/ _ => (left; sem_auto tac) + (right; sem_auto tac)
@@ -511,3 +511,25 @@ Proof.
   apply eval_complete_take. exact Hin.
 Qed.
 Print Assumptions append_search_complete.
+
+(* ================================================================================================ *)
+(* non-vacuity of the hypotheses on MapO's function argument: f := EqualO *)
+Definition fcall_eq (args : list pterm) : goal := GEq (nth 0 args PNil) (nth 1 args PNil).
+
+Lemma fcall_eq_ok :
+  (forall ve a b, Den (mini_defs fcall_eq) (fcall_eq [a; b]) ve <-> close ve a = close ve b) /\
+  (forall args, calls_okb (mini_defs fcall_eq) (fcall_eq args) = true) /\
+  (forall args, relational (fcall_eq args) = true).
+Proof. split; [intros; apply den_eq|split; reflexivity]. Qed.
+
+Example map_eq_den x y ve :
+  Den (mini_defs fcall_eq) (GCall mapo_idx [x; y]) ve <->
+  exists xs, close ve x = tlist xs TNil /\ close ve y = tlist xs TNil.
+Proof.
+  rewrite (map_den fcall_eq eq (proj1 fcall_eq_ok)). split.
+  - intros [xs [ys [Hx [Hy F]]]]. exists xs. split; [exact Hx|]. rewrite Hy. f_equal.
+    clear Hx Hy. induction F; congruence.
+  - intros [xs [Hx Hy]]. exists xs, xs. repeat split; try assumption.
+    clear Hx Hy. induction xs; constructor; auto.
+Qed.
+Print Assumptions map_eq_den.
